@@ -88,7 +88,7 @@ func dirHashes(dir string) map[string]string {
 
 func TestC11(t *testing.T) {
 	st := statsFor("C11")
-	st.Rule = "a database is built by a generated history under a generated configuration and closed; then a generated fault set is applied from outside: remove object files, add valid object files under fresh uuids (not conflicting on unique paths), remove index entries consistently from schema.json, remove schema.json, make one index internally inconsistent (drop a tuple from one field index only; swap two tuples of different value (the first and the last, or two neighbours - mostly the last two); index one object twice and its neighbour not at all), plus two harmless shapes: a backup copy '<uuid><ext>.bak' next to an object file, an object file replaced by a symbolic link to a regular file. Objects may carry value-changing Transform hooks (after Repair the index must reflect what the files hold). Added files are half of the time written the way another tool would (indented, extra unknown member, half of those partial documents that leave members out) so that a Repair that rewrites files changes bytes; a second, untouched collection is loaded on the same handle and Control is asked six times (it must report the damaged one every time); added files may hold values their own Validate refuses (Repair indexes, it does not judge); Repair is given a template object with non-zero fields (only its type may matter); in a third of the divergent cases the first call is a bulk import (must report corruption and store nothing); after Repair the objects whose files were lost are stored again exactly as they were and must be written; caller-style uuids (upper-case, non-v4) are used. Oracle: expected divergence computed from sets (uuid-named files vs. object-ids in schema.json). First load and Control report ErrIndexCorrupted iff the sets differ (some error if an index is internally inconsistent; nil on a healthy database of every configuration); Repair returns nil, leaves every object file byte-identical and creates/removes none; afterwards Control is nil and Count, All, Get and a search sweep (every operator x stored values and neighbours on every indexed path) equal predicates evaluated on the decoded file contents; after Close and reopen Control is still nil. Removed schema: Create reports corruption iff files exist, then Repair as above. Non-trivial: fault set with >= 2 kinds, or a cancelling pair, or a boundary shape (all files gone, only extra files, empty collection). Distinct by program hash."
+	st.Rule = "a database is built by a generated history under a generated configuration and closed; then a generated fault set is applied from outside: remove object files, add valid object files under fresh uuids (not conflicting on unique paths), remove index entries consistently from schema.json, remove schema.json, make one index internally inconsistent (drop a tuple from one field index only; swap two tuples of different value (the first and the last, or two neighbours - mostly the last two); index one object twice and its neighbour not at all), plus two harmless shapes: a backup copy '<uuid><ext>.bak' next to an object file, an object file replaced by a symbolic link to a regular file. Objects may carry value-changing Transform hooks (after Repair the index must reflect what the files hold). Added files are half of the time written the way another tool would (indented, extra unknown member, half of those partial documents that leave members out) so that a Repair that rewrites files changes bytes; in a quarter of the cases the damage (file level only) is done while the handle stays open - warm cache, index in memory - and detection goes through Control on that handle; a second, untouched collection is loaded on the same handle and Control is asked six times (it must report the damaged one every time); added files may hold values their own Validate refuses (Repair indexes, it does not judge); Repair is given a template object with non-zero fields (only its type may matter); in a third of the divergent cases the first call is a bulk import (must report corruption and store nothing); after Repair the objects whose files were lost are stored again exactly as they were and must be written; caller-style uuids (upper-case, non-v4) are used. Oracle: expected divergence computed from sets (uuid-named files vs. object-ids in schema.json). First load and Control report ErrIndexCorrupted iff the sets differ (some error if an index is internally inconsistent; nil on a healthy database of every configuration); Repair returns nil, leaves every object file byte-identical and creates/removes none; afterwards Control is nil and Count, All, Get and a search sweep (every operator x stored values and neighbours on every indexed path) equal predicates evaluated on the decoded file contents; after Close and reopen Control is still nil. Removed schema: Create reports corruption iff files exist, then Repair as above. Non-trivial: fault set with >= 2 kinds, or a cancelling pair, or a boundary shape (all files gone, only extra files, empty collection). Distinct by program hash."
 	st.Assumptions = baseAssumptions()
 	prof := &Profile{
 		Property: "C11", MaxOps: pick(8, 18),
@@ -111,7 +111,7 @@ func TestC11(t *testing.T) {
 			}
 			faults = append(faults, f)
 		}
-		prog.Aux = map[string]interface{}{"faults": faults}
+		prog.Aux = map[string]interface{}{"faults": faults, "live": g.pct("live") < 25}
 		guard(rt, prog, func() { caseC11(rt, prog) })
 	})
 }
@@ -134,10 +134,32 @@ func caseC11(t TB, prog *Program) {
 			e.failf("insert into the second collection: %v", err)
 		}
 	}
-	if err := e.db.Close(); err != nil {
-		e.failf("Close: %v", err)
+	// live variant: the directory is damaged while the handle stays open (warm cache, index in
+	// memory): only file-level damage, detection through Control on that handle
+	live, _ := prog.Aux["live"].(bool)
+	liveDB := e.db
+	if live {
+		if err := e.db.FlushAllAndCommit(&Doc{}); err != nil {
+			e.failf("FlushAllAndCommit: %v", err)
+		}
+		if err := e.db.Commit(&Doc{}); err != nil {
+			e.failf("Commit: %v", err)
+		}
+		var kept []Fault
+		for _, f := range faults {
+			switch f.K {
+			case "rmfile", "addfile", "sibling", "tosymlink", "rmallfiles":
+				kept = append(kept, f)
+			}
+		}
+		faults = kept
+		e.flag("damage-under-a-live-handle")
+	} else {
+		if err := e.db.Close(); err != nil {
+			e.failf("Close: %v", err)
+		}
+		e.db = nil
 	}
-	e.db = nil
 	dir := e.collDir()
 	schemaPath := filepath.Join(dir, "schema.json")
 	suffix := e.cfg.Ext
@@ -458,9 +480,24 @@ func caseC11(t TB, prog *Program) {
 
 	// ---- detection
 	sod.LowercaseNames = e.cfg.Lower
-	db := sod.Open(e.root)
+	var db *sod.DB
+	if live {
+		db = liveDB
+	} else {
+		db = sod.Open(e.root)
+	}
 	e.db = db
-	if schemaRemoved {
+	if live {
+		for round := 0; round < 3; round++ {
+			cerr := db.Control()
+			if divergent && !sod.IsIndexCorrupted(cerr) {
+				e.failf("the directory was damaged while the handle was open: files and index differ as sets but Control (call %d) returned %v", round+1, cerr)
+			}
+			if !divergent && cerr != nil {
+				e.failf("the directory was touched while the handle was open but files and index still agree: Control returned %v", cerr)
+			}
+		}
+	} else if schemaRemoved {
 		err := db.Create(&Doc{}, e.cfg.Schema())
 		if len(fileSet) > 0 {
 			if !sod.IsIndexCorrupted(err) {
